@@ -38,7 +38,7 @@ ASSUMPTIONS = ['fake redis client (bytes replies) and fake object store with aws
 
 def BOUNDS(tier):
     return {'messages': 2, 'recipients': 3, 'depth_after_writes': 4 if tier == 'quick' else 5,
-            'overlap': 'none' if tier == 'quick' else 'all pairs of ops on different ids, interleavings of their yield points with <= 3 deviations from run-to-completion'}
+            'overlap': '5 pairs' if tier == 'quick' else 'all pairs of ops on different ids, interleavings of their yield points with <= 3 deviations from run-to-completion'}
 
 
 def make_env(label):
@@ -337,6 +337,10 @@ def configs(tier, seed):
     depth = 4 if tier == 'quick' else 5
     for b in ('dict', 'disk', 'redis', 'cloud'):
         cfgs.append({'mode': 'bfs', 'backend': b, 'depth': depth})
+    if tier == 'quick':
+        for a, bb in ((('inc', 'A'), ('ts', 'B', T2)), (('write', 'A'), ('write', 'B')), (('dlv', 'A', (0,)), ('rm', 'B')), (('rm', 'A'), ('inc', 'B'))):
+            cfgs.append({'mode': 'overlap', 'backend': 'disk', 'a': list(a), 'b': list(bb)})
+        cfgs.append({'mode': 'overlap', 'backend': 'redis', 'a': ['inc', 'A'], 'b': ['dlv', 'B', [1, 2]]})
     if tier == 'thorough':
         opsA = [('ts', 'A', T1), ('inc', 'A'), ('dlv', 'A', (0,)), ('rm', 'A'), ('write', 'A')]
         opsB = [('ts', 'B', T2), ('inc', 'B'), ('dlv', 'B', (1, 2)), ('rm', 'B'), ('write', 'B')]
